@@ -18,13 +18,24 @@ from .index import AnalysisError, ClassInfo, ModuleInfo, Repo, clone
 class FoldRaise(Exception):
     """The folded function raises for this input (row undefined)."""
 
-    def __init__(self, kind: str, msg: str = ''):
+    def __init__(self, kind: str, msg: str = '', exc_args=None, bases=()):
         super().__init__(f'{kind}: {msg}')
         self.kind = kind
+        self.msg = msg
+        self.exc_args = exc_args      # evaluated constructor arguments of the exception object (None: not known to the folder)
+        self.bases = tuple(bases)     # names of the classes of the exception's MRO inside the package and their builtin bases
+        self.cause = None
 
 
 class Unsupported(Exception):
     pass
+
+
+def _py_exc(ex: BaseException) -> 'FoldRaise':
+    """The exception of the subject that corresponds to a Python exception raised by a standard-library function the folder ran on the
+    subject's values (class name, the names of its bases for `except`, its arguments)."""
+    plain = all(x is None or isinstance(x, (bool, int, float, str, bytes)) for x in ex.args)
+    return FoldRaise(type(ex).__name__, str(ex), exc_args=tuple(ex.args) if plain else None, bases=[c.__name__ for c in type(ex).__mro__ if c is not object])
 
 
 class EV:
@@ -87,6 +98,9 @@ class Bound:
         self.self_val, self.cls, self.fn = self_val, cls, fn
 
 
+_UNSET = object()
+
+
 class _Return(Exception):
     def __init__(self, v):
         self.v = v
@@ -104,7 +118,10 @@ BUILTINS = {'bytearray', 'issubclass', 'dict', 'range', 'enumerate', 'str', 'int
             'KeyError', 'NotImplementedError', 'TypeError', 'list', 'sorted', 'set', 'min', 'max', 'all', 'any', 'zip', 'map',
             'print', 'repr', 'ConnectionError', 'IndexError', 'AssertionError', 'sum', 'reversed', 'frozenset', 'getattr', 'hasattr',
             'setattr', 'RuntimeError', 'OSError', 'id', 'iter', 'next', 'divmod', 'round', 'type', 'object', 'AttributeError', 'StopIteration',
-            'TimeoutError', 'ord', 'chr', 'filter', 'callable', 'format', 'hash', 'bytes', 'float'}
+            'TimeoutError', 'ord', 'chr', 'filter', 'callable', 'format', 'hash', 'bytes', 'float', 'pow', 'bin', 'hex', 'oct', 'ascii',
+            'NotImplemented', 'LookupError', 'ArithmeticError', 'ZeroDivisionError', 'OverflowError', 'UnicodeDecodeError', 'UnicodeEncodeError', 'UnicodeError',
+            'EOFError', 'BrokenPipeError', 'ConnectionResetError', 'ConnectionAbortedError', 'ConnectionRefusedError', 'BaseException', 'KeyboardInterrupt',
+            'NameError', 'IOError', 'FileNotFoundError', 'PermissionError', 'InterruptedError', 'BlockingIOError', 'RecursionError', 'ImportError', 'SystemExit'}
 
 
 # standard-library modules whose functions are pure functions of immutable arguments: evaluated natively by the folder
@@ -121,13 +138,27 @@ def _has_internal(vals) -> bool:
     return False
 
 
-def _catches(htype, kind: str) -> bool:
-    """Does `except <htype>` catch an exception of class name `kind` (builtin exception hierarchy; unknown classes by name)?"""
+_EXC_ALIASES = {'IOError': 'OSError', 'EnvironmentError': 'OSError'}
+
+
+def _catches(htype, kind: str, bases=()) -> bool:
+    """Does `except <htype>` catch an exception of class name `kind` (builtin exception hierarchy; classes of the package through the
+    names of their bases; unknown classes by name)?"""
     import builtins
     if htype is None:
         return True
     names = [ast.unparse(x).split('.')[-1] for x in (htype.elts if isinstance(htype, ast.Tuple) else [htype])]
     k = getattr(builtins, kind.split('.')[-1], None)
+    if not isinstance(k, type):
+        # a class of the package: caught by its own name, by a package base, or by a builtin class one of its builtin bases derives from
+        for bn in bases:
+            bk = getattr(builtins, bn, None)
+            for n in names:
+                if n == bn:
+                    return True
+                b = getattr(builtins, n, None)
+                if isinstance(bk, type) and isinstance(b, type) and issubclass(bk, b):
+                    return True
     for n in names:
         if n == kind.split('.')[-1]:
             return True
@@ -140,6 +171,8 @@ def _catches(htype, kind: str) -> bool:
 
 
 _GEN_CACHE: Dict[int, bool] = {}
+import re as _re_mod      # noqa: E402
+_OWN_BINDING = _re_mod.compile(r'(<lambda>|<locals>|Folder\.)[\w.<>]*\(\) (got|takes|missing)')
 
 
 def _own_nodes(fn):
@@ -487,12 +520,7 @@ class _Fmt:
         return self.fo._str(self.v)
 
     def __repr__(self):
-        c_, fn_ = self.fo._find(self.v.cls, '__repr__')
-        if fn_ is not None:
-            return self.fo._invoke(c_.module, c_, fn_, self.v, [], {})
-        if isinstance(self.v, EV):
-            return f'<{self.v.cls.name.split(".")[-1]}.{self.v.name}: {self.v.value!r}>'
-        raise Unsupported('repr() of an object of the subject without __repr__')
+        return self.fo._repr(self.v)
 
     def __format__(self, spec):
         c_, fn_ = self.fo._find(self.v.cls, '__format__')
@@ -649,6 +677,8 @@ def _is_iterish(v) -> bool:
 class _ChainEnv(dict):
     """Local environment of a nested function: own names first, then the (live) environment of the enclosing call."""
 
+    _comp = False
+
     def __init__(self, outer):
         super().__init__()
         self._outer = outer
@@ -665,11 +695,12 @@ class _ChainEnv(dict):
         return self[k] if k in self else d
 
 
-def _scope(env):
-    """A new innermost scope over `env` (a comprehension / lambda body): names of an enclosing function stay visible through the chain."""
-    if isinstance(env, _ChainEnv):
-        return _ChainEnv(env)
-    return dict(env)
+def _scope(env, comp: bool = False):
+    """A new innermost scope over `env` (a comprehension / lambda body): the names of the enclosing function stay visible - live, as
+    Python's closure cells are (late binding) - through the chain."""
+    c = _ChainEnv(env)
+    c._comp = comp
+    return c
 
 
 class Folder:
@@ -688,11 +719,35 @@ class Folder:
         self.numpy = None          # sa.npstub when the rule wants numpy's 1-d arrays modelled (never the real numpy)
         self.steps = 0
         self.max_steps = max_steps
+        self._globals = {}         # (module, name) -> value of a module-level variable rebound through a `global` statement
+        self._handling = []        # exceptions of the subject being handled (innermost last): what a bare `raise` re-raises
 
     # -- domain helpers ----------------------------------------------------
     def members(self, cls_name: str) -> List[EV]:
         ci = self.repo.cls(cls_name, 'fold')
-        return [EV(ci, n, v) for n, v in ci.enum_members().items()]
+        return self._members(ci)
+
+    def _members(self, ci: ClassInfo) -> List[EV]:
+        """The members of an enumeration in definition order, as iteration over the class gives them: a name bound to the value of an
+        earlier member is an alias of it, not a member."""
+        out: List[EV] = []
+        for n, v in ci.enum_members().items():
+            if not isinstance(v, ast.AST) and any((not isinstance(o.value, ast.AST)) and o.value == v and type(o.value) is type(v) for o in out):
+                continue
+            out.append(EV(ci, n, v))
+        return out
+
+    def _member(self, ci: ClassInfo, name: str) -> EV:
+        """Enum member by name (an alias gives the member it stands for)."""
+        mem = ci.enum_members()
+        v = mem[name]
+        if not isinstance(v, ast.AST):
+            for n2, v2 in mem.items():
+                if n2 == name:
+                    break
+                if not isinstance(v2, ast.AST) and v2 == v and type(v2) is type(v):
+                    return EV(ci, n2, v2)
+        return EV(ci, name, v)
 
     def member(self, cls_name: str, name: str) -> EV:
         for m in self.members(cls_name):
@@ -792,7 +847,7 @@ class Folder:
             if fn is None:
                 mem = obj.cls.enum_members()
                 if name in mem:
-                    return EV(obj.cls, name, mem[name])
+                    return self._member(obj.cls, name)
                 # attributes set by the enumeration's own __init__(self, *value): evaluated once per member
                 ic, init = self._find(obj.cls, '__init__')
                 if init is not None:
@@ -817,6 +872,11 @@ class Folder:
                 return obj.fields[name]
             if name == '__class__':
                 return ClsRef(obj.cls)
+            if name.startswith('_') and '__' in name[1:] and not name.endswith('__'):
+                for cc in self.repo.mro(obj.cls):
+                    pre = '_' + cc.name.split('.')[-1].lstrip('_')
+                    if name.startswith(pre + '__') and name[len(pre):] in obj.fields:
+                        return obj.fields[name[len(pre):]]        # a private name written in its mangled form
             c, fn = self._find(obj.cls, name)
             if fn is None and (obj.cls.is_namedtuple or obj.cls.is_dataclass) and name in ('_asdict', '_replace', '_fields'):
                 order_ = [n for n in obj.cls.order if n in obj.cls.annots]
@@ -836,9 +896,19 @@ class Folder:
                         return ClsRef(nested)
                 if name in self.external_attrs:
                     return self.external_attrs[name](obj)
+                cg_, ga_ = self._find(obj.cls, '__getattr__')
+                if ga_ is not None and not (name.startswith('__') and name.endswith('__')):
+                    return self._invoke(cg_.module, cg_, ga_, obj, [name], {})
+                if id(obj) in self._fresh and self.allow_loops and all(not c_.base_names or all(self.repo.resolve_class_name(c_.module, b_) is not None or b_ in ('object', 'ABC', 'abc.ABC') for b_ in c_.base_names) for c_ in self.repo.mro(obj.cls)):
+                    # every class of the MRO is in the package and the folder ran the constructor: the attribute does not exist
+                    raise FoldRaise('AttributeError', f"'{obj.cls.name}' object has no attribute '{name}'")
                 raise Unsupported(f'{obj.cls.name}.{name}')
             if c.method_kind(name) == 'property':
                 return self._invoke(c.module, c, fn, obj, [], {})
+            if c.method_kind(name) == 'cached_property':
+                v_ = self._invoke(c.module, c, fn, obj, [], {})
+                obj.fields[name] = v_          # functools.cached_property: computed once, then an ordinary instance attribute
+                return v_
             k = c.method_kind(name)
             return Bound(obj if k == 'method' else (ClsRef(obj.cls) if k == 'class' else None), c, fn)
         if isinstance(obj, ClsRef):
@@ -846,11 +916,13 @@ class Folder:
             if ci.is_enum:
                 mem = ci.enum_members()
                 if name in mem:
-                    return EV(ci, name, mem[name])
+                    return self._member(ci, name)
                 if name == '__members__':
-                    return {k_: EV(ci, k_, v_) for k_, v_ in mem.items()}
+                    return {k_: self._member(ci, k_) for k_ in mem}
             if name == '__name__':
                 return ci.name.split('.')[-1]
+            if name == '_fields' and ci.is_namedtuple:
+                return tuple(n for n in ci.order if n in ci.annots)
             c, fn = self._find(ci, name)
             if fn is not None:
                 k = c.method_kind(name)
@@ -888,8 +960,10 @@ class Folder:
             import re as _re
             if name in ('sub', 'findall', 'match', 'fullmatch', 'search', 'split', 'compile', 'escape', 'finditer'):
                 return ('pyfunc', getattr(_re, name))
-            if name in ('IGNORECASE', 'I', 'MULTILINE', 'DOTALL'):
+            if name in ('IGNORECASE', 'I', 'MULTILINE', 'M', 'DOTALL', 'S', 'VERBOSE', 'X', 'ASCII', 'A', 'UNICODE', 'U'):
                 return getattr(_re, name)
+            if name in ('subn', 'purge', 'Pattern', 'Match', 'error'):
+                raise Unsupported(f're.{name}')
         if isinstance(obj, tuple) and len(obj) == 2 and obj[0] == 'pymodule' and obj[1] == 'numpy' and self.numpy is not None:
             return self.numpy.attr(name)
         if isinstance(obj, tuple) and len(obj) == 2 and obj[0] == 'pymodule' and obj[1] == 'collections':
@@ -905,25 +979,104 @@ class Folder:
             except (ImportError, AttributeError):
                 raise Unsupported(f'attribute {name} of module {obj[1]}')
             return ('pyfunc', v) if callable(v) else v
+        if isinstance(obj, tuple) and len(obj) == 2 and obj[0] == 'pymodule' and obj[1] == 'json' and name in ('dumps', 'loads'):
+            import json as _json
+
+            def dumps_(o, *a, **k):
+                if k.get('default') is not None or k.get('cls') is not None or not self._json_plain(o):
+                    raise Unsupported('json.dumps of an object of the subject / with a default hook')
+                return _json.dumps(o, *a, **k)
+            return ('pyfunc', dumps_ if name == 'dumps' else _json.loads)
+        if isinstance(obj, tuple) and len(obj) == 2 and obj[0] == 'pymodule' and obj[1] == 'copy' and name in ('copy', 'deepcopy') and not self.stubs.get('copy.' + name):
+            def copy_(o, _deep=(name == 'deepcopy')):
+                if isinstance(o, DV) and any(self._find(o.cls, d_)[1] is not None for d_ in ('__copy__', '__deepcopy__', '__reduce__', '__getstate__')):
+                    raise Unsupported('copy of an object with its own copy protocol')
+                if _deep:
+                    return self.clone(o)
+                if isinstance(o, DV):
+                    if id(o) not in self._fresh:
+                        return o
+                    c_ = DV(o.cls, dict(o.fields))
+                    self._fresh.add(id(c_))
+                    self._keep.append(c_)
+                    return c_
+                if isinstance(o, (list, dict, set, bytearray)) and not getattr(o, '_sa_native', False):
+                    return o.copy()
+                if self._plain_value(o) or isinstance(o, (tuple, frozenset, EV, ClsRef)):
+                    return o
+                raise Unsupported('copy.copy of ' + type(o).__name__)
+            return ('pyfunc', copy_)
+        if isinstance(obj, tuple) and len(obj) == 2 and obj[0] == 'pymodule' and obj[1] == 'contextlib' and name in ('suppress', 'nullcontext', 'closing'):
+            fo_ = self
+
+            class _Ctx:
+                _sa_native = True
+
+                def __init__(self, *a):
+                    self.a = a
+
+                def __enter__(self):
+                    return None if name == 'suppress' else (self.a[0] if self.a else None)
+
+                def __exit__(self, et, ev, tb):
+                    if name == 'closing':
+                        fo_._getattr_call(self.a[0], 'close', [], {}) if isinstance(self.a[0], DV) else self.a[0].close()
+                        return False
+                    if name == 'suppress' and isinstance(ev, FoldRaise):
+                        for t_ in self.a:
+                            tn = t_[1] if isinstance(t_, tuple) and len(t_) == 2 and t_[0] == 'builtin' else t_.cls.name if isinstance(t_, ClsRef) else None
+                            if tn is None:
+                                raise Unsupported('contextlib.suppress of ' + repr(t_)[:40])
+                            if _catches(ast.Name(id=tn, ctx=ast.Load()), ev.kind, ev.bases):
+                                return True
+                    return False
+            return ('pyfunc', lambda *a: _Ctx(*a))
         if isinstance(obj, tuple) and len(obj) == 2 and obj[0] == 'pymodule':
             return ('extern', f'{obj[1]}.{name}')      # opaque constant of a module outside the package
         import re as _re2
-        if isinstance(obj, _re2.Match) and name in ('group', 'groups', 'start', 'end', 'span', 'groupdict'):
+        if isinstance(obj, _re2.Match) and name in ('group', 'groups', 'start', 'end', 'span', 'groupdict', 'expand'):
             return ('strmethod', obj, name)
-        if isinstance(obj, _re2.Pattern) and name in ('match', 'fullmatch', 'search', 'sub', 'findall', 'split', 'finditer'):
+        if isinstance(obj, _re2.Pattern) and name in ('match', 'fullmatch', 'search', 'sub', 'findall', 'split', 'finditer', 'subn'):
             return ('strmethod', obj, name)
-        if isinstance(obj, _re2.Pattern) and name == 'pattern':
-            return obj.pattern
+        if isinstance(obj, _re2.Pattern) and name in ('pattern', 'groups', 'flags', 'groupindex'):
+            return dict(obj.groupindex) if name == 'groupindex' else getattr(obj, name)
+        if isinstance(obj, _re2.Match) and name in ('string', 'pos', 'endpos', 'lastindex', 'lastgroup', 're'):
+            return getattr(obj, name)
         if obj == ('builtin', 'dict') and name == 'fromkeys':
             return ('pyfunc', dict.fromkeys)
-        if isinstance(obj, list) and name in ('append', 'index', 'count', 'pop', 'extend', 'insert', 'remove', 'clear', 'copy'):
+        if isinstance(obj, list) and name in ('append', 'index', 'count', 'pop', 'extend', 'insert', 'remove', 'clear', 'copy', 'reverse'):
             return ('strmethod', obj, name)
+        if isinstance(obj, list) and name == 'sort':
+            def sort_(key=None, reverse=False, _l=obj):
+                _l[:] = self._apply(('builtin', 'sorted'), [list(_l)], {'key': key, 'reverse': reverse})
+            return ('pyfunc', sort_)
+        if isinstance(obj, tuple) and len(obj) == 2 and obj[0] == 'builtin' and obj[1] in ('str', 'bytes', 'int', 'list', 'dict', 'set', 'tuple', 'frozenset', 'float'):
+            if name == '__name__':
+                return obj[1]
+            import builtins as _b2
+            m_ = getattr(getattr(_b2, obj[1]), name, None)
+            if m_ is None:
+                raise FoldRaise('AttributeError', f"type object '{obj[1]}' has no attribute '{name}'")
+            return ('pyfunc', m_)
+        if isinstance(obj, tuple) and len(obj) == 2 and obj[0] == 'builtin' and name == '__name__':
+            return obj[1]
         if isinstance(obj, (set, frozenset)) and name in ('add', 'remove', 'discard', 'copy', 'union', 'issubset', 'pop', 'clear', 'update', 'difference', 'intersection',
                                                           'symmetric_difference', 'isdisjoint', 'issuperset', 'difference_update', 'intersection_update',
                                                           'symmetric_difference_update') and hasattr(obj, name):
             return ('strmethod', obj, name)
         if obj is None or isinstance(obj, (bool, int, float)):
+            if hasattr(obj, name):
+                if name in ('bit_length', 'bit_count', 'is_integer', 'conjugate', 'real', 'imag', 'numerator', 'denominator', 'as_integer_ratio'):
+                    v_ = getattr(obj, name)
+                    return ('pyfunc', v_) if callable(v_) else v_
+                raise Unsupported(f'attribute {name} on {type(obj).__name__}')
             raise FoldRaise('AttributeError', f"'{type(obj).__name__}' object has no attribute '{name}'")
+        if isinstance(obj, FoldRaise):
+            if name == 'args' and obj.exc_args is not None:
+                return tuple(obj.exc_args)
+            if name == '__cause__':
+                return obj.cause
+            raise Unsupported(f'attribute {name} of an exception object')
         raise Unsupported(f'attribute {name} on {type(obj).__name__}')
 
     def _class_attr(self, ci: ClassInfo, name: str):
@@ -1032,8 +1185,28 @@ class Folder:
             if isinstance(st, ast.With) and self.allow_loops:
                 self._with(st, 0, env, mod, ci)
             elif isinstance(st, ast.FunctionDef):
-                # a nested function: a closure over the live environment of the enclosing call (late binding, as in Python)
-                env[st.name] = ('closure', st, env, mod, ci)
+                # a nested function: a closure over the live environment of the enclosing call (late binding, as in Python); its default
+                # values are evaluated now
+                if any(ast.unparse(d_).split('.')[-1].split('(')[0] not in ('contextmanager', 'wraps', 'staticmethod') for d_ in st.decorator_list):
+                    raise Unsupported('decorated nested function')
+                cenv = _scope(env)
+                dv_ = {}
+                pos_ = [a.arg for a in st.args.posonlyargs + st.args.args]
+                for pn, dflt in zip(reversed(pos_), reversed(st.args.defaults)):
+                    dv_[pn] = self._eval(dflt, env, mod, ci)
+                for a_, dflt in zip(st.args.kwonlyargs, st.args.kw_defaults):
+                    if dflt is not None:
+                        dv_[a_.arg] = self._eval(dflt, env, mod, ci)
+                cenv['__defaults__'] = dv_
+                env[st.name] = ('closure', st, cenv, mod, ci)
+            elif isinstance(st, (ast.Nonlocal, ast.Global)):
+                if not isinstance(env, _ChainEnv) and isinstance(st, ast.Nonlocal):
+                    raise Unsupported('nonlocal outside a nested function')
+                key_ = '__nonlocal__' if isinstance(st, ast.Nonlocal) else '__global__'
+                dict.__setitem__(env, key_, set(dict.get(env, key_, ())) | set(st.names))
+                if isinstance(st, ast.Global):
+                    for n_ in st.names:
+                        self._globals.setdefault((mod.name, n_), self._name(n_, {}, mod, None) if self.repo.resolve_name(mod, n_) is not None else _UNSET)
             elif isinstance(st, ast.Return):
                 raise _Return(self._eval(st.value, env, mod, ci) if st.value is not None else None)
             elif isinstance(st, ast.If):
@@ -1050,13 +1223,13 @@ class Folder:
                     self._assign(st.target, self._eval(st.value, env, mod, ci), env)
             elif isinstance(st, ast.AugAssign):
                 if isinstance(st.target, ast.Name):
-                    cur = env[st.target.id]
-                    env[st.target.id] = self._binop(st.op, cur, self._eval(st.value, env, mod, ci))
+                    cur = self._name(st.target.id, env, mod, ci)
+                    self._bind(env, st.target.id, self._augop(st.op, cur, self._eval(st.value, env, mod, ci)))
                 elif self.allow_loops and isinstance(st.target, (ast.Attribute, ast.Subscript)):
                     # x.a += v / x[k] += v : read through a load copy of the target, store through the ordinary assignment
                     load = ast.parse(ast.unparse(st.target), mode='eval').body
                     cur = self._eval(load, env, mod, ci)
-                    self._assign(st.target, self._binop(st.op, cur, self._eval(st.value, env, mod, ci)), env)
+                    self._assign(st.target, self._augop(st.op, cur, self._eval(st.value, env, mod, ci)), env)
                 else:
                     raise Unsupported('augassign to non-local')
             elif isinstance(st, ast.Expr) and isinstance(st.value, ast.Yield):
@@ -1083,21 +1256,21 @@ class Folder:
                     continue
                 self._eval(st.value, env, mod, ci)
             elif isinstance(st, ast.Raise):
-                kind = 'Exception'
-                if st.exc is not None:
-                    f = st.exc.func if isinstance(st.exc, ast.Call) else st.exc
-                    kind = ast.unparse(f)
-                raise FoldRaise(kind, ast.unparse(st)[:60])
+                raise self._raise_stmt(st, env, mod, ci)
             elif isinstance(st, ast.Try) and self.allow_loops:
                 try:
                     try:
                         self._block(st.body, env, mod, ci)
                     except FoldRaise as r_:
                         for h in st.handlers:
-                            if _catches(h.type, r_.kind):
+                            if _catches(h.type, r_.kind, r_.bases):
                                 if h.name:
                                     env[h.name] = r_
-                                self._block(h.body, env, mod, ci)
+                                self._handling.append(r_)
+                                try:
+                                    self._block(h.body, env, mod, ci)
+                                finally:
+                                    self._handling.pop()
                                 break
                         else:
                             raise
@@ -1112,6 +1285,35 @@ class Folder:
                     raise FoldRaise('AssertionError', ast.unparse(st.test))
             elif isinstance(st, ast.Pass):
                 continue
+            elif isinstance(st, ast.Delete) and self.allow_loops:
+                for t_ in st.targets:
+                    if isinstance(t_, ast.Name):
+                        if not dict.__contains__(env, t_.id):
+                            raise Unsupported('del of a name that is not local')
+                        dict.__delitem__(env, t_.id)
+                    elif isinstance(t_, ast.Subscript):
+                        base_ = self._eval(t_.value, env, mod, ci)
+                        if not isinstance(base_, (list, dict, bytearray)) or getattr(base_, '_sa_native', False):
+                            raise Unsupported('del of an item of ' + type(base_).__name__)
+                        try:
+                            del base_[self._index(t_.slice, env)]
+                        except (KeyError, IndexError, TypeError) as ex_:
+                            raise _py_exc(ex_)
+                    elif isinstance(t_, ast.Attribute):
+                        own_ = self._eval(t_.value, env, mod, ci)
+                        if isinstance(own_, DV) and id(own_) in self._fresh and t_.attr in own_.fields:
+                            del own_.fields[t_.attr]
+                        elif isinstance(own_, DV) and id(own_) in self._fresh:
+                            raise FoldRaise('AttributeError', t_.attr)
+                        else:
+                            raise Unsupported('del of an attribute')
+                    else:
+                        raise Unsupported('del target')
+            elif isinstance(st, ast.Import):
+                for al_ in st.names:
+                    if al_.name.split('.')[0] == 'bridge_env':
+                        raise Unsupported('import of a package module inside a function')
+                    env[al_.asname or al_.name.split('.')[0]] = ('pymodule', al_.name if al_.asname else al_.name.split('.')[0])
             elif isinstance(st, ast.While) and self.allow_loops:
                 while self._truth(self._eval(st.test, env, mod, ci)):
                     try:
@@ -1124,8 +1326,10 @@ class Folder:
                     self._block(st.orelse, env, mod, ci)
             elif isinstance(st, ast.For) and self.allow_loops:
                 it = self._eval(st.iter, env, mod, ci)
+                watched = it if isinstance(it, (dict, set)) and not getattr(it, '_sa_native', False) else None
+                n_watched = len(watched) if watched is not None else 0
                 if isinstance(it, ClsRef) and it.cls.is_enum:
-                    it = [EV(it.cls, n, v) for n, v in it.cls.enum_members().items()]
+                    it = self._members(it.cls)
                 elif isinstance(it, (set, frozenset)):
                     it = sorted(it, key=repr)
                 elif isinstance(it, (dict, type({}.items()), type({}.keys()), type({}.values()))):
@@ -1140,6 +1344,8 @@ class Folder:
                     raise Unsupported('for over ' + type(it).__name__)
                 broke = False
                 for x in self._iterate(it):
+                    if watched is not None and len(watched) != n_watched:
+                        raise FoldRaise('RuntimeError', f'{type(watched).__name__} changed size during iteration')
                     self._assign(st.target, x, env)
                     try:
                         self._block(st.body, env, mod, ci)
@@ -1167,6 +1373,46 @@ class Folder:
                             break
                     continue
                 raise Unsupported(f'statement {type(st).__name__} in folded function')
+
+    def _raise_stmt(self, st: ast.Raise, env, mod, ci) -> 'FoldRaise':
+        """The exception a `raise` statement raises: class name, names of its bases (classes of the package are followed to their builtin
+        bases), constructor arguments when they can be evaluated."""
+        if st.exc is None:
+            if not self._handling:
+                return FoldRaise('RuntimeError', 'No active exception to reraise')
+            return self._handling[-1]
+        f = st.exc.func if isinstance(st.exc, ast.Call) else st.exc
+        if isinstance(f, ast.Name) and f.id in env and isinstance(env[f.id], FoldRaise) and not isinstance(st.exc, ast.Call):
+            ex = env[f.id]        # raise e
+        else:
+            kind = ast.unparse(f)
+            bases, exc_args = [], None
+            r = self.repo.resolve_name(mod, kind) if isinstance(f, ast.Name) else None
+            if r is not None and r[0] == 'class':
+                for c_ in self.repo.mro(r[1]):
+                    bases.append(c_.name)
+                    for b_ in c_.node.bases:
+                        bn = ast.unparse(b_).split('.')[-1]
+                        if bn not in bases and self.repo.resolve_class_name(c_.module, bn) is None:
+                            bases.append(bn)
+                custom_init = any('__init__' in c_.methods or '__str__' in c_.methods for c_ in self.repo.mro(r[1]))
+            else:
+                custom_init = False
+            if isinstance(st.exc, ast.Call) and not custom_init and not st.exc.keywords:
+                try:
+                    exc_args = tuple(self._elts(st.exc.args, env, mod, ci))
+                except (Unsupported, AnalysisError):
+                    exc_args = None
+            elif not isinstance(st.exc, ast.Call):
+                exc_args = ()
+            ex = FoldRaise(kind, ast.unparse(st)[:60], exc_args=exc_args, bases=bases)
+        if st.cause is not None:
+            try:
+                c_ = self._eval(st.cause, env, mod, ci)
+                ex.cause = c_ if isinstance(c_, FoldRaise) else None
+            except (Unsupported, AnalysisError):
+                pass
+        return ex
 
     def _collections(self, name: str):
         """collections.defaultdict / deque / OrderedDict / Counter as the containers of the subject (the real classes on the analyser's values;
@@ -1213,7 +1459,7 @@ class Folder:
 
         def seq(x):
             if isinstance(x, ClsRef) and x.cls.is_enum:
-                return [EV(x.cls, n, v) for n, v in x.cls.enum_members().items()]
+                return self._members(x.cls)
             if isinstance(x, (set, frozenset)):
                 return sorted(x, key=repr)
             if isinstance(x, LazyIter):
@@ -1366,6 +1612,39 @@ class Folder:
             return True
         raise Unsupported('match pattern ' + type(pat).__name__)
 
+    def _seq(self, x):
+        """The iterable a builtin consumes when it is handed x: members of an enum class, the items of an object with __iter__ (lazy), keys of
+        a dict, a set in a fixed order; a NamedTuple value gives its fields."""
+        if isinstance(x, ClsRef) and x.cls.is_enum:
+            return self._members(x.cls)
+        if isinstance(x, DV) and x.cls.is_namedtuple and self._find(x.cls, '__iter__')[1] is None:
+            return [x.fields[n] for n in x.cls.order if n in x.cls.annots and n in x.fields]
+        if isinstance(x, DV):
+            if self._find(x.cls, '__iter__')[1] is None:
+                c_, gi = self._find(x.cls, '__getitem__')
+                if gi is None:
+                    raise FoldRaise('TypeError', f"'{x.cls.name}' object is not iterable")
+
+                def by_index():
+                    i = 0
+                    while True:
+                        try:
+                            yield self._invoke(c_.module, c_, gi, x, [i], {})
+                        except FoldRaise as fr:
+                            if fr.kind.split('.')[-1] == 'IndexError':
+                                return
+                            raise
+                        i += 1
+                return LazyIter(by_index())
+            return self._iter_of(x)
+        if isinstance(x, (set, frozenset)):
+            return sorted(x, key=repr)
+        if isinstance(x, (dict, type({}.items()), type({}.keys()), type({}.values()))):
+            return list(x)
+        if isinstance(x, (EV, ClsRef, Bound)) or x is None or isinstance(x, (bool, int, float)):
+            raise FoldRaise('TypeError', f"'{type(x).__name__}' object is not iterable")
+        return x
+
     def _iterate(self, it):
         """Iterate a value of the subject one item at a time (lazy iterators stay lazy; every item costs a step)."""
         if isinstance(it, DV):
@@ -1415,11 +1694,51 @@ class Folder:
             return self._getattr_call(mgr, '__exit__', a, {})
         return mgr.__exit__(*a)
 
+    def _property_set(self, obj: DV, name: str, v) -> bool:
+        """obj.name = v where name is a property of the class: its setter runs (no setter: AttributeError).  A class whose whole MRO
+        declares __slots__ accepts only the declared names."""
+        mro_ = self.repo.mro(obj.cls)
+        if all('__slots__' in c_.assigns for c_ in mro_) and all(not c_.base_names or all(self.repo.resolve_class_name(c_.module, b_) is not None or b_ == 'object' for b_ in c_.base_names) for c_ in mro_):
+            slots = set()
+            for c_ in mro_:
+                try:
+                    sv = ast.literal_eval(c_.assigns['__slots__'])
+                except (ValueError, SyntaxError):
+                    raise Unsupported('__slots__ is not a literal')
+                slots |= {sv} if isinstance(sv, str) else set(sv)
+            if name not in slots and '__dict__' not in slots:
+                raise FoldRaise('AttributeError', f"'{obj.cls.name}' object has no attribute '{name}'")
+        c, fn = self._find(obj.cls, name)
+        if fn is None or c.method_kind(name) != 'property':
+            return False
+        for cc in self.repo.mro(obj.cls):
+            st = cc.setters.get((name, 'setter'))
+            if st is not None:
+                self._invoke(cc.module, cc, st, obj, [v], {})
+                return True
+        raise FoldRaise('AttributeError', f"property '{name}' of '{obj.cls.name}' object has no setter")
+
+    def _bind(self, env, name, v):
+        """NAME = v in the scope `env` (declared nonlocal: the nearest enclosing function scope that binds it; declared global: the module)."""
+        if isinstance(env, dict):
+            if name in dict.get(env, '__global__', ()):
+                self._globals[(self._cur_mod.name, name)] = v
+                return
+            if name in dict.get(env, '__nonlocal__', ()):
+                o = getattr(env, '_outer', None)
+                while o is not None:
+                    if dict.__contains__(o, name):
+                        dict.__setitem__(o, name, v)
+                        return
+                    o = getattr(o, '_outer', None)
+                raise Unsupported(f'nonlocal {name}: no binding found')
+        env[name] = v
+
     def _assign(self, t, v, env):
         if isinstance(t, ast.Name):
-            env[t.id] = v
+            self._bind(env, t.id, v)
         elif isinstance(t, (ast.Tuple, ast.List)) and any(isinstance(x, ast.Starred) for x in t.elts):
-            vs = list(self._iterate(v)) if isinstance(v, LazyIter) else list(v)
+            vs = list(self._iterate(self._seq(v)))
             si = next(i for i, x in enumerate(t.elts) if isinstance(x, ast.Starred))
             after = len(t.elts) - si - 1
             if len(vs) < len(t.elts) - 1:
@@ -1430,24 +1749,29 @@ class Folder:
             for tt, vv in zip(t.elts[si + 1:], vs[len(vs) - after:] if after else []):
                 self._assign(tt, vv, env)
         elif isinstance(t, (ast.Tuple, ast.List)):
-            vs = list(self._iterate(v)) if isinstance(v, LazyIter) else list(v)
+            vs = list(self._iterate(self._seq(v)))
             if len(vs) != len(t.elts):
-                if isinstance(v, (list, tuple, str, LazyIter, set, dict, range)):
+                if isinstance(v, (list, tuple, str, LazyIter, set, dict, range, DV, ClsRef, bytes)):
                     raise FoldRaise('ValueError', f'{"too many" if len(vs) > len(t.elts) else "not enough"} values to unpack (expected {len(t.elts)})')
                 raise Unsupported('tuple arity')
             for tt, vv in zip(t.elts, vs):
                 self._assign(tt, vv, env)
         elif isinstance(t, ast.Attribute) and isinstance(t.value, ast.Name) and t.value.id in env \
                 and isinstance(env[t.value.id], DV) and id(env[t.value.id]) in self._fresh:
-            env[t.value.id].fields[t.attr] = v
+            if not self._property_set(env[t.value.id], t.attr, v):
+                env[t.value.id].fields[t.attr] = v
         elif isinstance(t, ast.Attribute) and self.allow_loops and not (isinstance(t.value, ast.Name) and t.value.id not in env):
             # x.y.attr = v : the owner is evaluated; it must be an assignable object of the subject (built by a constructor / mutable dataclass)
             owner = self._eval(t.value, env, self._cur_mod, None)
-            if isinstance(owner, DV) and id(owner) in self._fresh:
+            if isinstance(owner, DV) and self._property_set(owner, t.attr, v):
+                pass
+            elif isinstance(owner, DV) and id(owner) in self._fresh:
                 owner.fields[t.attr] = v
             elif isinstance(owner, DV):
                 raise FoldRaise('AttributeError', f"cannot assign to field '{t.attr}' of a frozen value") if any('frozen=True' in d for d in owner.cls.decorators) \
                     else Unsupported('assignment to an attribute of an object the folder did not build')
+            elif isinstance(owner, ClsRef) and not owner.cls.is_enum and t.attr in owner.cls.assigns:
+                self.__dict__.setdefault('_class_attr_cache', {})[(owner.cls.module.name, owner.cls.name, t.attr)] = v
             else:
                 raise Unsupported('attribute assignment on ' + type(owner).__name__)
         elif isinstance(t, ast.Subscript) and isinstance(t.value, ast.Name) and t.value.id in env \
@@ -1482,7 +1806,7 @@ class Folder:
         try:
             base[k] = v
         except (IndexError, KeyError, TypeError, ValueError) as ex:
-            raise FoldRaise(type(ex).__name__, str(ex))
+            raise _py_exc(ex)
 
     def _truth(self, v) -> bool:
         if isinstance(v, EV) and v.cls.enum_kind in ('Flag', 'IntFlag', 'IntEnum') and isinstance(v.value, int) and self._find(v.cls, '__bool__')[1] is None:
@@ -1501,31 +1825,135 @@ class Folder:
             return True
         return bool(v)
 
+    def _plain_value(self, v, depth=0) -> bool:
+        """Is v a Python value without any object of the analyser inside (so that str / repr / format of it are CPython's own)?"""
+        if v is None or isinstance(v, (bool, int, float, str, bytes, bytearray, range)):
+            return True
+        if depth > 6:
+            return False
+        if isinstance(v, (list, tuple)) and not (isinstance(v, tuple) and v and isinstance(v[0], str) and v[0] in ('lambda', 'closure', 'func', 'pyfunc', 'builtin', 'strmethod', 'pymodule', 'extern')):
+            return all(self._plain_value(x, depth + 1) for x in v)
+        if type(v) is dict:
+            return all(self._plain_value(k, depth + 1) and self._plain_value(x, depth + 1) for k, x in v.items())
+        if isinstance(v, (set, frozenset)):
+            return len(v) <= 1 and all(self._plain_value(x, depth + 1) for x in v)      # the order of a larger set is not a fact about the program
+        return False
+
+    def _json_plain(self, v, depth=0) -> bool:
+        if v is None or isinstance(v, (bool, int, float, str)):
+            return True
+        if depth > 12:
+            return False
+        if isinstance(v, (list, tuple)) and not (isinstance(v, tuple) and v and isinstance(v[0], str) and v[0] in ('lambda', 'closure', 'func', 'pyfunc', 'builtin', 'strmethod', 'pymodule', 'extern')):
+            return all(self._json_plain(x, depth + 1) for x in v)
+        if type(v) is dict:
+            return all(isinstance(k, (str, int, float, bool, type(None))) and self._json_plain(x, depth + 1) for k, x in v.items())
+        if isinstance(v, (EV, DV, set, frozenset, bytes)):
+            if isinstance(v, EV) and self._valued_enum(v):
+                return False
+            raise FoldRaise('TypeError', f'Object of type {v.cls.name if isinstance(v, (EV, DV)) else type(v).__name__} is not JSON serializable')
+        return False
+
+    def _repr(self, v) -> str:
+        if isinstance(v, (EV, DV)):
+            c, fn = self._find(v.cls, '__repr__')
+            if fn is not None:
+                return self._invoke(c.module, c, fn, v, [], {})
+            if isinstance(v, EV):
+                val = self._attr(v, 'value')
+                return f'<{v.cls.name.split(".")[-1]}.{v.name}: {self._repr(val)}>'
+            if v.cls.is_namedtuple or (v.cls.is_dataclass and not any('repr=False' in d for d in v.cls.decorators)):
+                names = [n for n in v.cls.order if n in v.cls.annots and n in v.fields]
+                shown = []
+                for n in names:
+                    dflt = v.cls.assigns.get(n)
+                    if isinstance(dflt, ast.Call) and ast.unparse(dflt.func).split('.')[-1] == 'field' and any(k.arg == 'repr' and isinstance(k.value, ast.Constant) and not k.value.value for k in dflt.keywords):
+                        continue
+                    shown.append(f'{n}={self._repr(v.fields[n])}')
+                return f'{v.cls.name.split(".")[-1]}({", ".join(shown)})'
+            raise Unsupported('repr() of an object of the subject without __repr__ (its text contains an address)')
+        if self._plain_value(v):
+            return repr(v)
+        if isinstance(v, list):
+            return '[' + ', '.join(self._repr(x) for x in v) + ']'
+        if isinstance(v, tuple) and not (v and isinstance(v[0], str) and v[0] in ('lambda', 'closure', 'func', 'pyfunc', 'builtin', 'strmethod', 'pymodule', 'extern')):
+            return '(' + ', '.join(self._repr(x) for x in v) + (',)' if len(v) == 1 else ')')
+        if type(v) is dict:
+            return '{' + ', '.join(f'{self._repr(k)}: {self._repr(x)}' for k, x in v.items()) + '}'
+        if isinstance(v, FoldRaise) and v.exc_args is not None:
+            return f'{v.kind.split(".")[-1]}(' + ', '.join(self._repr(x) for x in v.exc_args) + ')'
+        raise Unsupported(f'repr() of {type(v).__name__}')
+
     def _str(self, v) -> str:
         if isinstance(v, (EV, DV)):
             c, fn = self._find(v.cls, '__str__')
             if fn is not None:
                 return self._invoke(c.module, c, fn, v, [], {})
             if isinstance(v, EV):
-                return f'{v.cls.name}.{v.name}'
-            raise Unsupported('str() of dataclass without __str__')
-        if isinstance(v, bool) or v is None or isinstance(v, (int, str)):
+                if v.cls.enum_kind in ('IntEnum', 'IntFlag', 'StrEnum'):
+                    return str(self._attr(v, 'value'))       # Python >= 3.11: str() of these is str() of the value
+                if self._find(v.cls, '__repr__')[1] is not None or self._find(v.cls, '__format__')[1] is not None:
+                    raise Unsupported('str() of an enum member with its own __repr__ / __format__')
+                return f'{v.cls.name.split(".")[-1]}.{v.name}'
+            return self._repr(v)
+        if isinstance(v, FoldRaise):
+            if v.exc_args is None:
+                raise Unsupported('str() of an exception object whose arguments are not known to the folder')
+            if v.kind.split('.')[-1] == 'KeyError' and len(v.exc_args) == 1:
+                return self._repr(v.exc_args[0])
+            return '' if not v.exc_args else self._str(v.exc_args[0]) if len(v.exc_args) == 1 else self._repr(tuple(v.exc_args))
+        if isinstance(v, str):
+            return v
+        if self._plain_value(v):
             return str(v)
+        if isinstance(v, (list, tuple)) or type(v) is dict:
+            return self._repr(v)
         raise Unsupported(f'str() of {type(v).__name__}')
 
-    def _int(self, v) -> int:
+    def _format(self, v, spec: str) -> str:
         if isinstance(v, (EV, DV)):
-            c, fn = self._find(v.cls, '__int__')
-            if fn is None:
-                raise FoldRaise('TypeError', 'int() of object without __int__')
-            return self._invoke(c.module, c, fn, v, [], {})
-        if isinstance(v, str):
+            return format(_Fmt(v, self), spec)
+        if isinstance(v, (OrdInt, IntervalInt, OpaqueText, Opaque)) or getattr(v, '_sa_native', False):
+            raise Unsupported('format() of an analyser object')
+        if not spec:
+            return self._str(v)
+        if self._plain_value(v):
+            try:
+                return format(v, spec)
+            except (ValueError, TypeError) as ex:
+                raise _py_exc(ex)
+        raise Unsupported(f'format() of {type(v).__name__} with a format spec')
+
+    def _int(self, v, *more) -> int:
+        if more:
+            if isinstance(v, (str, bytes)) and all(isinstance(m, int) for m in more):
+                try:
+                    return int(v, *more)
+                except (ValueError, TypeError) as ex:
+                    raise _py_exc(ex)
+            raise Unsupported('int() with a base on ' + type(v).__name__)
+        if isinstance(v, EV) and self._enum_num(v) is not None and self._find(v.cls, '__int__')[1] is None:
+            return int(self._enum_num(v))
+        if isinstance(v, (EV, DV)):
+            for dn in ('__int__', '__index__'):
+                c, fn = self._find(v.cls, dn)
+                if fn is not None:
+                    return self._invoke(c.module, c, fn, v, [], {})
+            raise FoldRaise('TypeError', 'int() of object without __int__')
+        if isinstance(v, (str, bytes)):
             try:
                 return int(v)
             except ValueError:
                 raise FoldRaise('ValueError', f'int({v!r})')
         if isinstance(v, (int, bool)):
             return int(v)
+        if isinstance(v, float):
+            try:
+                return int(v)
+            except (ValueError, OverflowError) as ex:
+                raise _py_exc(ex)
+        if v is None or isinstance(v, (list, tuple, dict, set)):
+            raise FoldRaise('TypeError', f"int() argument must be a string, a bytes-like object or a real number, not '{type(v).__name__}'")
         raise Unsupported('int() of ' + type(v).__name__)
 
     def _construct(self, ci: ClassInfo, args, kw) -> Any:
@@ -1545,6 +1973,23 @@ class Folder:
         if ci.is_dataclass or ci.is_namedtuple:
             names = [n for n in ci.order if n in ci.annots and not ast.unparse(ci.annots[n]).split('[')[0].split('.')[-1] == 'ClassVar']
             fields: Dict[str, Any] = {}
+            no_init = []
+            for n in list(names):
+                d_ = ci.assigns.get(n)
+                if ci.is_dataclass and isinstance(d_, ast.Call) and ast.unparse(d_.func).split('.')[-1] == 'field' \
+                        and any(k.arg == 'init' and isinstance(k.value, ast.Constant) and not k.value.value for k in d_.keywords):
+                    names.remove(n)
+                    no_init.append(n)
+                    fk_ = {k.arg: k.value for k in d_.keywords}
+                    if 'default' in fk_:
+                        fields[n] = self._eval(fk_['default'], {}, ci.module, ci)
+                    elif 'default_factory' in fk_:
+                        fields[n] = self._apply(self._eval(fk_['default_factory'], {}, ci.module, ci), [], {})
+            if len(args) > len(names):
+                raise FoldRaise('TypeError', f'{ci.name}() takes {len(names)} positional arguments but {len(args)} were given')
+            for k_ in kw:
+                if k_ not in names:
+                    raise FoldRaise('TypeError', f"{ci.name}() got an unexpected keyword argument '{k_}'")
             for i, n in enumerate(names):
                 if i < len(args):
                     fields[n] = args[i]
@@ -1571,6 +2016,13 @@ class Folder:
             if '__post_init__' in ci.methods:
                 self._invoke(ci.module, ci, ci.methods['__post_init__'], dv, [], {})
             return dv
+        seen_ = set()
+        for c_ in self.repo.mro(ci):
+            for mn_, mf_ in c_.methods.items():
+                if mn_ not in seen_:
+                    seen_.add(mn_)
+                    if any(ast.unparse(d_).split('.')[-1] == 'abstractmethod' for d_ in mf_.decorator_list):
+                        raise FoldRaise('TypeError', f"Can't instantiate abstract class {ci.name} with abstract method {mn_}")
         c, init = self._find(ci, '__init__')
         if init is not None and self.allow_loops:
             obj = DV(ci, {})
@@ -1585,9 +2037,39 @@ class Folder:
             return obj
         raise Unsupported(f'constructor of {ci.name}')
 
+    def _augop(self, op, cur, v):
+        """cur <op>= v : in place for lists / sets / bytearrays / dicts (aliases see the change) and through __i<op>__ of an object of the
+        subject, else the binary operator."""
+        name = self.BINOP_DUNDER.get(type(op))
+        if isinstance(cur, DV) and name is not None:
+            c_, fn_ = self._find(cur.cls, f'__i{name}__')
+            if fn_ is not None:
+                return self._invoke(c_.module, c_, fn_, cur, [v], {})
+        if isinstance(op, ast.Add) and isinstance(cur, (list, bytearray)) and not getattr(cur, '_sa_native', False):
+            try:
+                cur.extend(self._iterate(self._seq(v)) if isinstance(cur, list) else v)
+            except TypeError as ex:
+                raise FoldRaise('TypeError', str(ex))
+            return cur
+        if isinstance(op, ast.Mult) and isinstance(cur, list) and isinstance(v, int):
+            cur[:] = cur * v
+            return cur
+        if isinstance(cur, set) and isinstance(v, (set, frozenset)) and isinstance(op, (ast.BitOr, ast.BitAnd, ast.Sub, ast.BitXor)):
+            {ast.BitOr: cur.update, ast.BitAnd: cur.intersection_update, ast.Sub: cur.difference_update, ast.BitXor: cur.symmetric_difference_update}[type(op)](v)
+            return cur
+        if type(cur) is dict and isinstance(op, ast.BitOr) and isinstance(v, dict):
+            cur.update(v)
+            return cur
+        return self._binop(op, cur, v)
+
     def _name(self, name, env, mod: ModuleInfo, ci):
         if name in env:
             return env[name]
+        if self._globals and (mod.name, name) in self._globals:
+            g_ = self._globals[(mod.name, name)]
+            if g_ is _UNSET:
+                raise FoldRaise('NameError', f"name '{name}' is not defined")
+            return g_
         r = self.repo.resolve_name(mod, name)
         if r is not None:
             if r[0] == 'class':
@@ -1618,6 +2100,8 @@ class Folder:
                 return ('pymodule', 're')
             if r[0] == 'module' and not r[1].startswith('bridge_env'):
                 return ('pymodule', r[1])
+        if name == 'NotImplemented':
+            return NotImplemented
         if name in BUILTINS:
             return ('builtin', name)
         raise Unsupported(f'name {name}')
@@ -1653,8 +2137,12 @@ class Folder:
             except (Unsupported, FoldRaise):
                 raise
             except (TypeError, ValueError, KeyError) as ex:
-                raise FoldRaise(type(ex).__name__, str(ex))
+                raise _py_exc(ex)
         name = self.BINOP_DUNDER.get(type(op))
+        if isinstance(a, DV) and a.cls.is_namedtuple and self._find(a.cls, f'__{name}__')[1] is None:
+            a = tuple(self._seq(a))
+        if isinstance(b, DV) and b.cls.is_namedtuple and self._find(b.cls, f'__r{name}__')[1] is None:
+            b = tuple(self._seq(b))
         # objects of the subject: their own operator methods
         if name is not None and (isinstance(a, DV) or isinstance(b, DV)):
             for recv, other, dn in ((a, b, f'__{name}__'), (b, a, f'__r{name}__')):
@@ -1709,6 +2197,12 @@ class Folder:
                 return a / b
             if isinstance(op, ast.Pow):
                 return a ** b
+            if isinstance(op, ast.LShift):
+                return a << b
+            if isinstance(op, ast.RShift):
+                return a >> b
+        except (ValueError, OverflowError) as e:
+            raise _py_exc(e)
         except TypeError as e:
             raise FoldRaise('TypeError', str(e))
         except ZeroDivisionError as e:
@@ -1726,13 +2220,16 @@ class Folder:
             if ev_.cls.enum_kind in ('IntEnum', 'IntFlag', 'StrEnum') and isinstance(ot_, (int, str)) and not isinstance(ot_, bool):
                 r_ = ev_.value == ot_
                 return r_ if isinstance(op, ast.Eq) else not r_
-        if isinstance(op, (ast.Eq, ast.NotEq)) and isinstance(a, DV):
-            c_, fn_ = self._find(a.cls, '__eq__' if isinstance(op, ast.Eq) else '__ne__')
-            if fn_ is not None:
-                return self._invoke(c_.module, c_, fn_, a, [b], {})
-            c_, fn_ = self._find(a.cls, '__eq__') if isinstance(op, ast.NotEq) else (None, None)
-            if fn_ is not None:
-                return not self._truth(self._invoke(c_.module, c_, fn_, a, [b], {}))
+        if isinstance(op, (ast.Eq, ast.NotEq, ast.Lt, ast.LtE, ast.Gt, ast.GtE)) and (isinstance(a, DV) or isinstance(b, DV)):
+            return self._rich({ast.Eq: 'eq', ast.NotEq: 'ne', ast.Lt: 'lt', ast.LtE: 'le', ast.Gt: 'gt', ast.GtE: 'ge'}[type(op)], a, b)
+        if isinstance(op, (ast.Eq, ast.NotEq)) and (isinstance(a, EV) or isinstance(b, EV)):
+            for x_, y_, dn_ in ((a, b, '__eq__' if isinstance(op, ast.Eq) else '__ne__'), (b, a, '__eq__' if isinstance(op, ast.Eq) else '__ne__')):
+                if isinstance(x_, EV):
+                    c_, fn_ = self._find(x_.cls, dn_)
+                    if fn_ is not None:
+                        r_ = self._invoke(c_.module, c_, fn_, x_, [y_], {})
+                        if r_ is not NotImplemented:
+                            return r_
         if isinstance(op, ast.Eq):
             return a == b
         if isinstance(op, ast.NotEq):
@@ -1745,23 +2242,44 @@ class Folder:
             if fn_ is not None:
                 r = self._truth(self._invoke(c_.module, c_, fn_, b, [a], {}))
                 return r if isinstance(op, ast.In) else not r
+        if isinstance(op, (ast.In, ast.NotIn)) and isinstance(b, DV) and b.cls.is_namedtuple:
+            b = tuple(self._seq(b))
+        if isinstance(op, (ast.In, ast.NotIn)) and isinstance(b, DV):
+            r = any(self._same_or_equal(a, x_) for x_ in self._iterate(self._seq(b)))      # no __contains__: iteration
+            return r if isinstance(op, ast.In) else not r
+        if isinstance(op, (ast.In, ast.NotIn)) and isinstance(b, ClsRef) and b.cls.is_enum:
+            r = isinstance(a, EV) and a.cls is b.cls
+            return r if isinstance(op, ast.In) else not r
+        if isinstance(op, (ast.In, ast.NotIn)) and isinstance(b, (list, tuple)) and any(isinstance(x_, (EV, DV)) for x_ in list(b) + [a]):
+            r = any(self._same_or_equal(a, x_) for x_ in b)
+            return r if isinstance(op, ast.In) else not r
+        if isinstance(op, (ast.In, ast.NotIn)) and isinstance(b, (dict, set, frozenset)) and (self._valued_enum(a) or any(self._valued_enum(k_) for k_ in b)):
+            raise Unsupported('membership of an int- / str-valued enum member in a hashed container (it hashes like its value)')
         if isinstance(op, (ast.In, ast.NotIn)):
             try:
                 r = a in b
             except TypeError as e:
+                if _has_internal([a, b]):
+                    raise Unsupported(f'membership test on an analyser object: {e}')
                 raise FoldRaise('TypeError', str(e))
             return r if isinstance(op, ast.In) else not r
         if isinstance(a, EV) or isinstance(b, EV):
             na_, nb_ = (self._enum_num(a) if isinstance(a, EV) else a), (self._enum_num(b) if isinstance(b, EV) else b)
             if isinstance(na_, (int, float)) and isinstance(nb_, (int, float)):
                 a, b = na_, nb_
+        if isinstance(a, EV) or isinstance(b, EV):
+            dn = {ast.Lt: ('__lt__', '__gt__'), ast.LtE: ('__le__', '__ge__'), ast.Gt: ('__gt__', '__lt__'), ast.GtE: ('__ge__', '__le__')}[type(op)]
+            for x_, y_, d_ in ((a, b, dn[0]), (b, a, dn[1])):
+                if isinstance(x_, EV):
+                    c, fn = self._find(x_.cls, d_)
+                    if fn is not None:
+                        r_ = self._invoke(c.module, c, fn, x_, [y_], {})
+                        if r_ is not NotImplemented:
+                            return r_
+            if any(isinstance(x_, EV) and any('total_ordering' in d for d in x_.cls.decorators) for x_ in (a, b)):
+                raise Unsupported('ordering of enum members through functools.total_ordering')
         for v in (a, b):
             if isinstance(v, (EV, DV, ClsRef)) or v is None:
-                if isinstance(a, DV) and isinstance(b, DV):
-                    dn = {ast.Lt: '__lt__', ast.LtE: '__le__', ast.Gt: '__gt__', ast.GtE: '__ge__'}[type(op)]
-                    c, fn = self._find(a.cls, dn)
-                    if fn is not None:
-                        return self._invoke(c.module, c, fn, a, [b], {})
                 raise FoldRaise('TypeError', 'ordering of non-numbers')
         try:
             if isinstance(op, ast.Lt):
@@ -1775,6 +2293,104 @@ class Folder:
         except TypeError as e:
             raise FoldRaise('TypeError', str(e))
         raise Unsupported('compare ' + type(op).__name__)
+
+    _REFLECT = {'lt': 'gt', 'gt': 'lt', 'le': 'ge', 'ge': 'le', 'eq': 'eq', 'ne': 'ne'}
+
+    def _rich(self, opn: str, a, b):
+        """a <op> b where a or b is an object of the subject: Python's rich-comparison protocol (the operand's own method, the reflected
+        method of the other operand, then identity for == / != and TypeError for the orderings)."""
+        if isinstance(b, DV) and isinstance(a, DV) and b.cls is not a.cls and a.cls in self.repo.mro(b.cls):
+            order = ((b, self._REFLECT[opn], a), (a, opn, b))        # the right operand's class derives from the left one's: its method first
+        else:
+            order = ((a, opn, b), (b, self._REFLECT[opn], a))
+        for x_, o_, y_ in order:
+            r = self._rich1(x_, o_, y_)
+            if r is not NotImplemented:
+                return r
+        if opn == 'eq':
+            return a is b
+        if opn == 'ne':
+            return a is not b
+        raise FoldRaise('TypeError', f"'{opn}' not supported between these instances")
+
+    def _dc_compare_fields(self, ci: ClassInfo):
+        out = []
+        for n in ci.order:
+            if n not in ci.annots or ast.unparse(ci.annots[n]).split('[')[0].split('.')[-1] == 'ClassVar':
+                continue
+            d = ci.assigns.get(n)
+            if isinstance(d, ast.Call) and ast.unparse(d.func).split('.')[-1] == 'field' and any(k.arg == 'compare' and isinstance(k.value, ast.Constant) and not k.value.value for k in d.keywords):
+                continue
+            out.append(n)
+        return out
+
+    def _rich1(self, x, opn: str, y):
+        if not isinstance(x, DV):
+            if isinstance(y, DV) and y.cls.is_namedtuple and isinstance(x, tuple):
+                return NotImplemented       # tuple.__op__(namedtuple) is decided by the reflected call below on the tuple view
+            return NotImplemented
+        c, fn = self._find(x.cls, f'__{opn}__')
+        if fn is not None:
+            return self._invoke(c.module, c, fn, x, [y], {})
+        decs = ' '.join(d for c_ in self.repo.mro(x.cls) for d in c_.decorators)
+        if x.cls.is_namedtuple:
+            xs = tuple(self._seq(x))
+            ys = tuple(self._seq(y)) if isinstance(y, DV) and y.cls.is_namedtuple else y
+            if not isinstance(ys, tuple):
+                return NotImplemented
+            return self._seq_compare(opn, xs, ys)
+        if x.cls.is_dataclass and opn in ('eq', 'ne') and 'eq=False' not in decs:
+            if not (isinstance(y, DV) and y.cls is x.cls):
+                return NotImplemented
+            names = self._dc_compare_fields(x.cls)
+            r = self._seq_compare('eq', tuple(x.fields.get(n) for n in names), tuple(y.fields.get(n) for n in names))
+            return r if opn == 'eq' else not r
+        if x.cls.is_dataclass and opn in ('lt', 'le', 'gt', 'ge') and 'order=True' in decs:
+            if not (isinstance(y, DV) and y.cls is x.cls):
+                return NotImplemented
+            names = self._dc_compare_fields(x.cls)
+            return self._seq_compare(opn, tuple(x.fields.get(n) for n in names), tuple(y.fields.get(n) for n in names))
+        if opn == 'ne':
+            r = self._rich1(x, 'eq', y)
+            return NotImplemented if r is NotImplemented else not self._truth(r)
+        if 'total_ordering' in decs and opn in ('lt', 'le', 'gt', 'ge'):
+            root = next((r_ for r_ in ('lt', 'le', 'gt', 'ge') if self._find(x.cls, f'__{r_}__')[1] is not None), None)
+            if root is None:
+                return NotImplemented
+            c2, f2 = self._find(x.cls, f'__{root}__')
+            r = self._invoke(c2.module, c2, f2, x, [y], {})
+            if r is NotImplemented:
+                return NotImplemented
+            r = self._truth(r)
+            eq = lambda: self._truth(self._rich('eq', x, y))       # noqa: E731
+            table = {('lt', 'gt'): lambda: not r and not eq(), ('lt', 'le'): lambda: r or eq(), ('lt', 'ge'): lambda: not r,
+                     ('le', 'ge'): lambda: not r or eq(), ('le', 'lt'): lambda: r and not eq(), ('le', 'gt'): lambda: not r,
+                     ('gt', 'lt'): lambda: not r and not eq(), ('gt', 'ge'): lambda: r or eq(), ('gt', 'le'): lambda: not r,
+                     ('ge', 'le'): lambda: not r or eq(), ('ge', 'gt'): lambda: r and not eq(), ('ge', 'lt'): lambda: not r}
+            return table[(root, opn)]()
+        return NotImplemented
+
+    def _seq_compare(self, opn: str, xs: tuple, ys: tuple) -> bool:
+        """Lexicographic comparison of two tuples of values of the subject (as tuple.__lt__ etc. do it: first differing pair decides)."""
+        for p, q in zip(xs, ys):
+            if p is q or self._truth(self._cmp(ast.Eq(), p, q)):
+                continue
+            if opn == 'eq':
+                return False
+            if opn == 'ne':
+                return True
+            return self._truth(self._cmp({'lt': ast.Lt(), 'le': ast.LtE(), 'gt': ast.Gt(), 'ge': ast.GtE()}[opn], p, q))
+        return {'eq': len(xs) == len(ys), 'ne': len(xs) != len(ys), 'lt': len(xs) < len(ys), 'le': len(xs) <= len(ys), 'gt': len(xs) > len(ys), 'ge': len(xs) >= len(ys)}[opn]
+
+    @staticmethod
+    def _valued_enum(v) -> bool:
+        return isinstance(v, EV) and v.cls.enum_kind in ('IntEnum', 'IntFlag', 'StrEnum')
+
+    def _same_or_equal(self, a, b) -> bool:
+        """x in [..] compares by identity, then by ==."""
+        if a is b:
+            return True
+        return self._truth(self._cmp(ast.Eq(), a, b))
 
     @staticmethod
     def _same(a, b):
@@ -1814,10 +2430,17 @@ class Folder:
                     if getattr(val, '_sa_native', False) and self.abstract_join is not None:
                         out.append(val)
                         abstract = True
-                    elif v.conversion == 114:
-                        out.append(repr(val))
                     else:
-                        out.append(self._str(val))
+                        if v.conversion == 114:
+                            val = self._repr(val)
+                        elif v.conversion == 115:
+                            val = self._str(val)
+                        elif v.conversion == 97:
+                            val = ascii(self._repr(val))[1:-1] if isinstance(val, (EV, DV)) else ascii(val) if self._plain_value(val) else None
+                            if val is None:
+                                raise Unsupported('!a conversion of an analyser object')
+                        spec = self._eval(v.format_spec, env, mod, ci) if v.format_spec is not None else ''
+                        out.append(self._format(val, spec))
             if abstract:
                 return self.abstract_join(out)
             return ''.join(out)
@@ -1890,22 +2513,42 @@ class Folder:
         if isinstance(e, ast.Set):
             return set(self._elts(e.elts, env, mod, ci))
         if isinstance(e, ast.Dict):
-            return {self._eval(k, env, mod, ci): self._eval(v, env, mod, ci) for k, v in zip(e.keys, e.values)}
+            d_ = {}
+            for k, v in zip(e.keys, e.values):
+                if k is None:
+                    m_ = self._eval(v, env, mod, ci)
+                    if not isinstance(m_, dict):
+                        raise Unsupported('** of a non-dict in a dict display')
+                    d_.update(m_)
+                else:
+                    kk_ = self._eval(k, env, mod, ci)
+                    d_[kk_] = self._eval(v, env, mod, ci)
+            return d_
         if isinstance(e, ast.Subscript):
             base = self._eval(e.value, env, mod, ci)
             if isinstance(e.slice, ast.Slice):
                 lo = self._eval(e.slice.lower, env, mod, ci) if e.slice.lower else None
                 hi = self._eval(e.slice.upper, env, mod, ci) if e.slice.upper else None
                 st_ = self._eval(e.slice.step, env, mod, ci) if e.slice.step is not None else None
+                if isinstance(base, DV) and base.cls.is_namedtuple and self._find(base.cls, '__getitem__')[1] is None:
+                    base = tuple(self._seq(base))
+                elif isinstance(base, DV) and self._find(base.cls, '__getitem__')[1] is not None:
+                    c, fn = self._find(base.cls, '__getitem__')
+                    return self._invoke(c.module, c, fn, base, [slice(lo, hi, st_)], {})
                 if isinstance(base, (DV, EV, ClsRef)):
                     raise Unsupported('slice of an object of the subject')
                 try:
                     return base[lo:hi:st_]
                 except (TypeError, ValueError) as ex:
-                    raise FoldRaise(type(ex).__name__, str(ex))
+                    raise _py_exc(ex)
             idx = self._eval(e.slice, env, mod, ci)
             if isinstance(base, DV):
                 c, fn = self._find(base.cls, '__getitem__')
+                if fn is None and base.cls.is_namedtuple:
+                    try:
+                        return tuple(self._seq(base))[idx]
+                    except (IndexError, TypeError) as ex:
+                        raise _py_exc(ex)
                 if fn is None:
                     raise Unsupported(f'{base.cls.name} is not subscriptable')
                 return self._invoke(c.module, c, fn, base, [idx], {})
@@ -1913,22 +2556,36 @@ class Folder:
                 if not base.cls.is_enum:
                     raise Unsupported('subscript of class')
                 mem = base.cls.enum_members()
-                if idx in mem:
-                    return EV(base.cls, idx, mem[idx])
+                if isinstance(idx, str) and idx in mem:
+                    return self._member(base.cls, idx)
                 raise FoldRaise('KeyError', repr(idx))
+            if self._valued_enum(idx) and isinstance(base, (list, tuple, str, bytes, range)) and isinstance(idx.value, int):
+                idx = idx.value
+            elif isinstance(idx, DV) and isinstance(base, (list, tuple, str, bytes, range)):
+                idx = self._int(idx) if self._find(idx.cls, '__index__')[1] is not None else idx
+            if isinstance(base, dict) and (self._valued_enum(idx) or any(self._valued_enum(k_) for k_ in base)) and idx not in base:
+                raise Unsupported('lookup of an int- / str-valued enum member in a dict (it hashes like its value)')
             try:
                 return base[idx]
             except (IndexError, KeyError, TypeError) as ex:
-                raise FoldRaise(type(ex).__name__, str(ex))
+                if isinstance(ex, TypeError) and _has_internal([base, idx]):
+                    raise Unsupported(f'subscript with an analyser object: {ex}')
+                raise _py_exc(ex)
         if isinstance(e, ast.Call):
             return self._call(e, env, mod, ci)
         if isinstance(e, ast.Lambda):
-            return ('lambda', e, _scope(env), mod, ci)
+            if e.args.vararg or e.args.kwarg or e.args.kwonlyargs:
+                raise Unsupported('lambda with * / ** / keyword-only parameters')
+            lenv = _scope(env)
+            names_ = [a.arg for a in e.args.args]
+            for pn, dflt in zip(reversed(names_), reversed(e.args.defaults)):
+                lenv[pn] = self._eval(dflt, env, mod, ci)        # default values are evaluated when the lambda is created
+            return ('lambda', e, lenv, mod, ci)
         if isinstance(e, (ast.ListComp, ast.SetComp, ast.GeneratorExp, ast.DictComp)) and self.allow_loops:
             def source(g, env2):
                 it = self._eval(g.iter, env2, mod, ci)
                 if isinstance(it, ClsRef) and it.cls.is_enum:
-                    it = [EV(it.cls, n, v) for n, v in it.cls.enum_members().items()]
+                    it = self._members(it.cls)
                 if isinstance(it, (dict, type({}.items()), type({}.keys()), type({}.values()))):
                     it = list(it)
                 if getattr(it, '_sa_native', False) and hasattr(it, '__iter__'):
@@ -1950,16 +2607,16 @@ class Folder:
                     return
                 g = e.generators[gi]
                 it = first if first is not None else source(g, env2)
+                env3 = env2          # one scope for the whole comprehension, as in Python: the loop variables are rebound, not re-created
                 for x in self._iterate(it):
-                    env3 = _scope(env2)
                     self._assign(g.target, x, env3)
                     if all(self._truth(self._eval(c, env3, mod, ci)) for c in g.ifs):
                         yield from rec(gi + 1, env3)
             if isinstance(e, ast.GeneratorExp):
                 # a generator expression: the outermost iterable is evaluated now, everything else when the items are asked for
-                env0 = _scope(env)
-                return LazyIter(rec(0, env0, first=source(e.generators[0], env0)))
-            out = list(rec(0, _scope(env)))
+                env0 = _scope(env, comp=True)
+                return LazyIter(rec(0, env0, first=source(e.generators[0], env)))
+            out = list(rec(0, _scope(env, comp=True)))
             if isinstance(e, ast.SetComp):
                 return set(out)
             if isinstance(e, ast.DictComp):
@@ -1967,7 +2624,10 @@ class Folder:
             return out
         if isinstance(e, ast.NamedExpr):
             v_ = self._eval(e.value, env, mod, ci)
-            env[e.target.id] = v_
+            tgt = env
+            while isinstance(tgt, _ChainEnv) and tgt._comp:
+                tgt = tgt._outer       # an assignment expression inside a comprehension binds in the enclosing function
+            tgt[e.target.id] = v_
             return v_
         raise Unsupported(f'expression {type(e).__name__}')
 
@@ -1977,20 +2637,43 @@ class Folder:
 
     def _call_closure(self, f, args, kw):
         _, node, cenv, cmod, cci = f
-        if node.args.vararg or node.args.kwarg or node.args.kwonlyargs:
-            raise Unsupported('nested function with */** parameters')
         env2 = _ChainEnv(cenv)
-        names = [a.arg for a in node.args.args]
+        dvals = dict.get(cenv, '__defaults__', None) if isinstance(cenv, dict) else None
+        posonly = [a.arg for a in node.args.posonlyargs]
+        names = posonly + [a.arg for a in node.args.args]
         dmap = dict(zip(reversed(names), reversed(node.args.defaults)))
+        if len(args) > len(names) and node.args.vararg is None:
+            raise FoldRaise('TypeError', f'{node.name}() takes {len(names)} positional arguments but {len(args)} were given')
         for i, prm in enumerate(names):
             if i < len(args):
+                if prm in kw and prm not in posonly:
+                    raise FoldRaise('TypeError', f"{node.name}() got multiple values for argument '{prm}'")
                 env2[prm] = args[i]
-            elif prm in kw:
+            elif prm in kw and prm not in posonly:
                 env2[prm] = kw[prm]
-            elif prm in dmap:
+            elif dvals is not None and prm in dvals:
+                env2[prm] = dvals[prm]
+            elif dvals is None and prm in dmap:
                 env2[prm] = self._eval(dmap[prm], cenv, cmod, cci)
             else:
-                raise Unsupported(f'missing argument {prm} for nested function {node.name}')
+                raise FoldRaise('TypeError', f"{node.name}() missing 1 required positional argument: '{prm}'")
+        if node.args.vararg is not None:
+            env2[node.args.vararg.arg] = tuple(args[len(names):])
+        for a_, d_ in zip(node.args.kwonlyargs, node.args.kw_defaults):
+            if a_.arg in kw:
+                env2[a_.arg] = kw[a_.arg]
+            elif dvals is not None and a_.arg in dvals:
+                env2[a_.arg] = dvals[a_.arg]
+            elif d_ is not None and dvals is None:
+                env2[a_.arg] = self._eval(d_, cenv, cmod, cci)
+            else:
+                raise FoldRaise('TypeError', f"{node.name}() missing 1 required keyword-only argument: '{a_.arg}'")
+        known = set(names) - set(posonly) | {a_.arg for a_ in node.args.kwonlyargs}
+        extra = {k_: v_ for k_, v_ in kw.items() if k_ not in known}
+        if node.args.kwarg is not None:
+            env2[node.args.kwarg.arg] = extra
+        elif extra:
+            raise FoldRaise('TypeError', f"{node.name}() got an unexpected keyword argument '{sorted(extra)[0]}'")
         is_gen = _GEN_CACHE.get(id(node))
         if is_gen is None:
             is_gen = _GEN_CACHE[id(node)] = any(isinstance(x, (ast.Yield, ast.YieldFrom)) for x in _own_nodes(node))
@@ -2012,7 +2695,7 @@ class Folder:
         if isinstance(v, tuple) and len(v) == 5 and v[0] == 'closure':
             return lambda *a, **k: self._call_closure(v, list(a), dict(k))
         if isinstance(v, tuple) and len(v) == 5 and v[0] == 'lambda':
-            return lambda *a: self._call_value(v, list(a))
+            return lambda *a, **k: self._call_value(v, list(a), dict(k))
         return v
 
     def _pycallable(self, v):
@@ -2028,11 +2711,24 @@ class Folder:
             return lambda *a, **k: self._apply(v, list(a), dict(k))
         raise Unsupported('call of a non-callable value ' + repr(v)[:60])
 
-    def _call_value(self, f, args):
+    def _call_value(self, f, args, kw=None):
         _, node, cenv, cmod, cci = f
         env2 = _scope(cenv)
-        for prm, a in zip(node.args.args, args):
-            env2[prm.arg] = a
+        names = [a.arg for a in node.args.args]
+        if len(args) > len(names):
+            raise FoldRaise('TypeError', f'<lambda>() takes {len(names)} positional arguments but {len(args)} were given')
+        for prm, a in zip(names, args):
+            env2[prm] = a
+        for k_, v_ in (kw or {}).items():
+            if k_ not in names:
+                raise FoldRaise('TypeError', f"<lambda>() got an unexpected keyword argument '{k_}'")
+            if k_ in names[:len(args)]:
+                raise FoldRaise('TypeError', f"<lambda>() got multiple values for argument '{k_}'")
+            env2[k_] = v_
+        ndef = len(node.args.defaults)
+        for i_, prm in enumerate(names):
+            if not dict.__contains__(env2, prm) and i_ < len(names) - ndef:
+                raise FoldRaise('TypeError', f"<lambda>() missing 1 required positional argument: '{prm}'")
         return self._eval(node.body, env2, cmod, cci)
 
     def _call(self, e: ast.Call, env, mod, ci):
@@ -2079,12 +2775,14 @@ class Folder:
             if isinstance(a, ast.Starred):
                 v = self._eval(a.value, env, mod, ci)
                 if isinstance(v, ClsRef) and v.cls.is_enum:
-                    v = [EV(v.cls, n, x) for n, x in v.cls.enum_members().items()]
+                    v = self._members(v.cls)
                 elif isinstance(v, (set, frozenset)):
                     v = sorted(v, key=repr)
                 elif isinstance(v, (dict, type({}.items()), type({}.keys()), type({}.values()))):
                     v = list(v)
-                if not isinstance(v, (list, tuple, range, str, LazyIter)):
+                if isinstance(v, DV):
+                    v = self._seq(v)
+                if not isinstance(v, (list, tuple, range, str, LazyIter, bytes)):
                     raise Unsupported('* of ' + type(v).__name__)
                 out.extend(self._iterate(v))
             else:
@@ -2101,25 +2799,23 @@ class Folder:
             return self._invoke(f[1], None, f[2], None, args, kw)
         if isinstance(f, tuple) and f[0] == 'pyfunc':
             conv = [self._as_callable(a) for a in args]
-            conv = [[EV(a.cls, k_, v_) for k_, v_ in a.cls.enum_members().items()] if isinstance(a, ClsRef) and a.cls.is_enum else a for a in conv]
+            conv = [self._members(a.cls) if isinstance(a, ClsRef) and a.cls.is_enum else a for a in conv]
             try:
                 return f[1](*conv, **kw)
             except (Unsupported, FoldRaise):
                 raise
             except Exception as ex:  # noqa
+                if isinstance(ex, TypeError) and _OWN_BINDING.search(str(ex)):
+                    raise Unsupported(f'call outside the modelled signature of {getattr(f[1], "__name__", f[1])}: {ex}')
                 if isinstance(ex, (TypeError, AttributeError)) and _has_internal(list(conv) + list(kw.values())):
                     # the standard-library function was handed an analyser object it cannot work on: a limit of the folder, not
                     # an exception of the subject
                     raise Unsupported(f'native call {getattr(f[1], "__name__", f[1])} on an analyser object: {ex}')
-                raise FoldRaise(type(ex).__name__, str(ex))
+                raise _py_exc(ex)
         if isinstance(f, tuple) and f[0] == 'closure':
             return self._call_closure(f, args, kw)
         if isinstance(f, tuple) and f[0] == 'lambda':
-            _, node, cenv, cmod, cci = f
-            env2 = _scope(cenv)
-            for prm, a in zip(node.args.args, args):
-                env2[prm.arg] = a
-            return self._eval(node.body, env2, cmod, cci)
+            return self._call_value(f, list(args), dict(kw))
         if isinstance(f, tuple) and f[0] == 'strmethod' and isinstance(f[1], str) and f[2] in ('format', 'format_map'):
             wrap = lambda x: _Fmt(x, self) if isinstance(x, (EV, DV)) else x      # noqa: E731
             try:
@@ -2129,11 +2825,11 @@ class Folder:
             except (Unsupported, FoldRaise):
                 raise
             except (KeyError, IndexError, ValueError, TypeError, AttributeError) as ex:
-                raise FoldRaise(type(ex).__name__, str(ex))
+                raise _py_exc(ex)
         if isinstance(f, tuple) and f[0] == 'strmethod':
             conv2 = [self._as_callable(a) for a in args]
             # an enum class handed to a method of a builtin container can only be iterated: its members in definition order
-            conv2 = [[EV(a.cls, k_, v_) for k_, v_ in a.cls.enum_members().items()] if isinstance(a, ClsRef) and a.cls.is_enum else a for a in conv2]
+            conv2 = [self._members(a.cls) if isinstance(a, ClsRef) and a.cls.is_enum else a for a in conv2]
             try:
                 return getattr(f[1], f[2])(*conv2, **kw)
             except (Unsupported, FoldRaise):
@@ -2141,16 +2837,51 @@ class Folder:
             except Exception as ex:  # noqa
                 if isinstance(ex, (TypeError, AttributeError)) and _has_internal(list(conv2) + list(kw.values())) and not isinstance(f[1], (list, set, dict)):
                     raise Unsupported(f'native method {f[2]} on an analyser object: {ex}')
-                raise FoldRaise(type(ex).__name__, str(ex))
+                raise _py_exc(ex)
         if isinstance(f, tuple) and f[0] == 'builtin':
             n = f[1]
+            if n in ('range', 'divmod', 'round', 'abs', 'chr', 'pow', 'bin', 'hex', 'oct', 'float') and any(self._valued_enum(a_) or isinstance(a_, DV) for a_ in args):
+                args = [a_.value if self._valued_enum(a_) and isinstance(a_.value, int) else self._int(a_) if isinstance(a_, DV) and self._find(a_.cls, '__index__')[1] is not None else a_ for a_ in args]
+                if _has_internal(args):
+                    raise Unsupported(f'{n}() of an object of the subject')
             if n == 'str':
+                if not args:
+                    return ''
+                if len(args) > 1 or kw:
+                    if isinstance(args[0], (bytes, bytearray)):
+                        try:
+                            return str(*args, **kw)
+                        except (UnicodeError, LookupError, TypeError) as ex:
+                            raise _py_exc(ex)
+                    raise Unsupported('str() with an encoding on ' + type(args[0]).__name__)
                 return self._str(args[0])
             if n == 'int':
-                return self._int(args[0])
+                if not args:
+                    return 0
+                return self._int(*args)
+            if n == 'format':
+                return self._format(args[0], args[1] if len(args) > 1 else '')
             if n in ('len', 'list', 'tuple', 'set') and args and isinstance(args[0], ClsRef) and args[0].cls.is_enum:
-                mem = [EV(args[0].cls, k, v) for k, v in args[0].cls.enum_members().items()]
+                mem = self._members(args[0].cls)
                 return len(mem) if n == 'len' else {'list': list, 'tuple': tuple, 'set': set}[n](mem)
+            if n == 'len' and isinstance(args[0], DV) and args[0].cls.is_namedtuple and self._find(args[0].cls, '__len__')[1] is None:
+                return len(self._seq(args[0]))
+            if n in ('list', 'tuple', 'set', 'sorted', 'frozenset', 'reversed', 'enumerate', 'all', 'any') and args and isinstance(args[0], DV):
+                if n == 'reversed' and self._find(args[0].cls, '__reversed__')[1] is not None:
+                    return self._getattr_call(args[0], '__reversed__', [], {})
+                if n == 'reversed' and not args[0].cls.is_namedtuple:
+                    cl_, ln_ = self._find(args[0].cls, '__len__')
+                    cg_, gi_ = self._find(args[0].cls, '__getitem__')
+                    if ln_ is None or gi_ is None:
+                        raise FoldRaise('TypeError', f"'{args[0].cls.name}' object is not reversible")
+                    k_ = self._invoke(cl_.module, cl_, ln_, args[0], [], {})
+                    return [self._invoke(cg_.module, cg_, gi_, args[0], [i_], {}) for i_ in range(k_ - 1, -1, -1)]
+                args = [list(self._iterate(self._seq(args[0])))] + list(args[1:])
+            if n in ('sorted', 'min', 'max', 'all', 'any', 'reversed') and len(args) == 1 and isinstance(args[0], (ClsRef, dict, set, frozenset, LazyIter)) and not (n == 'reversed' and isinstance(args[0], (set, frozenset, LazyIter))):
+                args = [list(self._iterate(self._seq(args[0])))]
+            if n in ('zip', 'map', 'filter') and any(isinstance(a, (DV, ClsRef)) for a in args[(0 if n == 'zip' else 1):]):
+                k0 = 0 if n == 'zip' else 1
+                args = list(args[:k0]) + [self._seq(a) if isinstance(a, (DV, ClsRef)) else a for a in args[k0:]]
             if n == 'len':
                 if isinstance(args[0], DV):
                     c_, fn_ = self._find(args[0].cls, '__len__')
@@ -2199,32 +2930,67 @@ class Folder:
                         best, bk = x, k
                 return best
             if n == 'dict':
-                return dict(*args)
+                if args and isinstance(args[0], (LazyIter, DV)):
+                    args = [list(self._iterate(self._seq(args[0])))] + list(args[1:])
+                try:
+                    return dict(*args, **kw)
+                except (TypeError, ValueError) as ex:
+                    if _has_internal(args):
+                        raise Unsupported(f'dict() of an analyser object: {ex}')
+                    raise _py_exc(ex)
             if n == 'range':
-                return range(*args)
+                try:
+                    return range(*args)
+                except (TypeError, ValueError) as ex:
+                    raise _py_exc(ex)
+            if n in ('chr', 'ord', 'pow', 'bin', 'hex', 'oct', 'hash', 'ascii') and not _has_internal(args):
+                import builtins as _bi
+                try:
+                    if n == 'hash' and not all(isinstance(a_, (int, bool, type(None))) or (isinstance(a_, tuple) and all(isinstance(x_, int) for x_ in a_)) for a_ in args):
+                        raise Unsupported('hash() of a value whose hash is randomised or address based')
+                    return getattr(_bi, n)(*args)
+                except (TypeError, ValueError, OverflowError) as ex:
+                    raise _py_exc(ex)
             if n == 'enumerate':
-                if args and isinstance(args[0], LazyIter):
-                    return LazyIter(enumerate(self._iterate(args[0]), *args[1:], **kw))
-                return list(enumerate(*args, **kw))
+                return LazyIter(enumerate(self._iterate(self._seq(args[0])), *args[1:], **kw))
             if n in ('all', 'any'):
                 return (all if n == 'all' else any)(self._truth(x) for x in args[0])
             if n == 'zip':
-                if any(isinstance(a, LazyIter) for a in args):
-                    return LazyIter(zip(*[self._iterate(a) for a in args]))
-                return list(zip(*[list(a) for a in args]))
+                strict_ = bool(kw.get('strict', False))
+                its_ = [self._iterate(self._seq(a)) for a in args]
+                return LazyIter(zip(*its_, strict=True) if strict_ else zip(*its_))
             if n == 'map':
                 fn_ = self._pycallable(args[0])
-                if any(isinstance(a, LazyIter) for a in args[1:]):
-                    return LazyIter(fn_(*xs) for xs in zip(*[self._iterate(a) for a in args[1:]]))
-                return [fn_(*xs) for xs in zip(*[list(a) for a in args[1:]])]
+                return LazyIter(fn_(*xs) for xs in zip(*[self._iterate(self._seq(a)) for a in args[1:]]))
             if n == 'print':
+                if kw.get('file') is not None:
+                    raise Unsupported('print(file=...)')
                 return None
+            if n == 'callable':
+                v0 = args[0]
+                return isinstance(v0, (Bound, ClsRef)) or (isinstance(v0, tuple) and bool(v0) and isinstance(v0[0], str) and v0[0] in ('lambda', 'closure', 'func', 'pyfunc', 'builtin', 'strmethod')) \
+                    or (isinstance(v0, DV) and self._find(v0.cls, '__call__')[1] is not None)
+            if n == 'type' and len(args) == 1:
+                v0 = args[0]
+                if isinstance(v0, (DV, EV)):
+                    return ClsRef(v0.cls)
+                if isinstance(v0, FoldRaise):
+                    r0 = self.repo.resolve_name(self._cur_mod, v0.kind) if getattr(self, '_cur_mod', None) is not None else None
+                    return ClsRef(r0[1]) if r0 is not None and r0[0] == 'class' else ('builtin', v0.kind.split('.')[-1])
+                if self._plain_value(v0) or isinstance(v0, (list, tuple, dict, set, frozenset)):
+                    return ('builtin', type(v0).__name__)
+                raise Unsupported('type() of ' + type(v0).__name__)
             if n == 'repr':
-                return repr(args[0])
+                return self._repr(args[0])
             if n == 'sum':
-                return sum(args[0])
+                acc = args[1] if len(args) > 1 else kw.get('start', 0)
+                for x_ in self._iterate(self._seq(args[0])):
+                    acc = self._binop(ast.Add(), acc, x_)
+                return acc
             if n == 'reversed':
-                return list(reversed(args[0]))
+                if isinstance(args[0], (LazyIter, set, frozenset)):
+                    raise FoldRaise('TypeError', f"'{type(args[0]).__name__}' object is not reversible")
+                return LazyIter(iter(list(reversed(args[0]))))
             if n == 'frozenset':
                 return frozenset(args[0]) if args else frozenset()
             if n in ('getattr', 'hasattr'):
@@ -2239,7 +3005,12 @@ class Folder:
                     raise FoldRaise('AttributeError', str(args[1]))
             if n == 'setattr':
                 if isinstance(args[0], DV):
-                    args[0].fields[args[1]] = args[2]
+                    if any('frozen=True' in d for d in args[0].cls.decorators):
+                        raise FoldRaise('FrozenInstanceError', f"cannot assign to field '{args[1]}'", bases=('FrozenInstanceError', 'AttributeError'))
+                    if args[0].cls.is_namedtuple:
+                        raise FoldRaise('AttributeError', "can't set attribute")
+                    if not self._property_set(args[0], args[1], args[2]):
+                        args[0].fields[args[1]] = args[2]
                     return None
                 raise Unsupported('setattr on a non-object')
             if n == 'iter':
@@ -2263,7 +3034,7 @@ class Folder:
                 if isinstance(it_, LazyIter):
                     return it_
                 if isinstance(it_, ClsRef) and it_.cls.is_enum:
-                    it_ = [EV(it_.cls, k, v) for k, v in it_.cls.enum_members().items()]
+                    it_ = self._members(it_.cls)
                 if isinstance(it_, (set, frozenset)):
                     it_ = sorted(it_, key=repr)
                 return LazyIter(iter(list(it_)))
@@ -2278,6 +3049,8 @@ class Folder:
                         return args[1]
                     raise
             if n == 'next':
+                if isinstance(args[0], (list, tuple, str, dict, set, frozenset, range, bytes)):
+                    raise FoldRaise('TypeError', f"'{type(args[0]).__name__}' object is not an iterator")
                 if not isinstance(args[0], LazyIter):
                     raise Unsupported('next() of ' + type(args[0]).__name__)
                 self.steps += 1
@@ -2301,9 +3074,7 @@ class Folder:
                 return float(*args)
             if n == 'filter':
                 fn_ = self._pycallable(args[0])
-                if isinstance(args[1], LazyIter):
-                    return LazyIter(x for x in self._iterate(args[1]) if self._truth(fn_(x) if fn_ is not None else x))
-                return [x for x in args[1] if self._truth(fn_(x) if fn_ is not None else x)]
+                return LazyIter(x for x in self._iterate(self._seq(args[1])) if self._truth(fn_(x) if fn_ is not None else x))
             if n in ('isinstance', 'issubclass'):
                 v, c = args
                 cs = list(c) if isinstance(c, tuple) and not (len(c) == 2 and c[0] == 'builtin') else [c]
@@ -2327,6 +3098,10 @@ class Folder:
                                 raise Unsupported('issubclass of ' + type(v).__name__)
                             kt = getattr(_b, kn.split('.')[-1], None)
                             out_ = out_ or (isinstance(kt, type) and issubclass(kt, bt)) or (not isinstance(kt, type) and bt in (Exception, BaseException))
+                        elif isinstance(v, DV) and v.cls.is_namedtuple and n == 'isinstance':
+                            out_ = out_ or bt in (object, tuple)
+                        elif isinstance(v, EV) and n == 'isinstance' and self._valued_enum(v):
+                            out_ = out_ or bt is object or (bt is int and v.cls.enum_kind in ('IntEnum', 'IntFlag')) or (bt is str and v.cls.enum_kind == 'StrEnum')
                         elif isinstance(v, (EV, DV, ClsRef, Bound)):
                             out_ = out_ or bt is object
                         elif getattr(v, '_sa_native', False) or isinstance(v, (OrdInt, IntervalInt, OpaqueText, Opaque)):
